@@ -42,6 +42,7 @@ type worldResult struct {
 	Dir       string
 	NoErrOK   bool // generation-time clause checked and held
 	NoErrViol string
+	OptionalStripped string
 	RaceRan    bool
 	RaceReport string
 }
@@ -277,7 +278,19 @@ func (e *Engine) Close() {
 
 // BuildWorld materialises, generates, rewrites and compiles one world.
 func (e *Engine) BuildWorld(s *Spec, idx int) (*worldResult, error) {
-	return e.buildWorldFiles(s, s.Prop, s.WorldFiles(), idx)
+	r, err := e.buildWorldFiles(s, s.Prop, s.WorldFiles(), idx)
+	if err == nil && r.Rejected && s.HasOptional {
+		// the tree under test does not support the optional shapes (e.g. array targets):
+		// rebuild the same world without them
+		opt := r.RejectMsg
+		_ = os.RemoveAll(r.Dir)
+		s.StripOptional()
+		r, err = e.buildWorldFiles(s, s.Prop, s.WorldFiles(), idx)
+		if r != nil {
+			r.OptionalStripped = firstLines(opt, 3)
+		}
+	}
+	return r, err
 }
 
 // buildWorldFiles builds a world from explicit files (s may be nil: replay of a recorded world).
@@ -511,6 +524,7 @@ func Check(id, tier string, seed uint64, repo, vd string) (*gensim.Outcome, erro
 	var samples []any
 	rejected, ran := 0, 0
 	raceWorlds := 0
+	optionalStripped, optionalKept := 0, 0
 	var rejectSamples []string
 	formats := map[string]int{}
 	seenKey := map[string]bool{}
@@ -526,6 +540,12 @@ func Check(id, tier string, seed uint64, repo, vd string) (*gensim.Outcome, erro
 			continue
 		}
 		ran++
+		if r.OptionalStripped != "" {
+			optionalStripped++
+		}
+		if r.Spec != nil && r.Spec.HasOptional {
+			optionalKept++
+		}
 		formats[r.Spec.Format+"/"+r.Spec.Wrap+"/skipcopy="+r.Spec.SkipCopyMode]++
 		if r.Stats != nil {
 			if c, ok := r.Stats["counters"].(map[string]any); ok {
@@ -645,6 +665,8 @@ func Check(id, tier string, seed uint64, repo, vd string) (*gensim.Outcome, erro
 		cov["steps_scheduler"] = int64(counters["c04.steps"])
 		cov["context_switches"] = int64(counters["c04.context_switches"])
 		cov["distinct_interleavings"] = int64(distinct["c04.interleavings"])
+		cov["optional_shapes"] = map[string]any{"worlds_rebuilt_without_them_because_goverter_refused": optionalStripped, "worlds_that_kept_them": optionalKept,
+			"note": "array targets are not supported by goverter today; worlds carry them as optional fields so that a change that starts supporting them is exercised"}
 		cov["race_detector_auxiliary"] = map[string]any{"worlds": raceWorlds, "note": "thorough tier only; NOT simulation: tasks released together without the scheduler, binary built with -race; reports only real races; decides nothing on its own"}
 		if counters["c04.skipcopy_executions"] > 0 && counters["c04.skipcopy_executions_with_sharing"] == 0 {
 			return nil, &vnode.BuildError{Msg: "C04 positive control failed: skipCopySameType worlds ran but no execution exhibited sharing at an identical-type position (detector blind)"}
